@@ -32,24 +32,44 @@ UpdC(c, n) == ~Bad(n) /\ conn' = [conn EXCEPT ![c] = n] /\ UNCHANGED cfg
 (* C12 / C18: the reply to a data command and the keyspace after it, against RedisModel.tla *)
 RECURSIVE ConfSet(_, _, _)
 ConfSet(f, ts, i) == IF i + 1 > Len(ts) THEN f ELSE ConfSet(PutF(f, ts[i].b, ts[i + 1].b), ts, i + 2)
-ConfGetOK(ts, v) == /\ v.t = "arr" /\ Len(v.e) = 2 * Len(ts)
-                    /\ \A i \in 1..Len(ts) : /\ v.e[2 * i - 1] = Bulk(ts[i].b)
-                                             /\ (ts[i].b \in DOMAIN conf => v.e[2 * i] = Bulk(conf[ts[i].b]))
+ConfGetOK(ts, v, cf) == /\ v.t = "arr" /\ Len(v.e) = 2 * Len(ts)
+                        /\ \A i \in 1..Len(ts) : /\ v.e[2 * i - 1] = Bulk(ts[i].b)
+                                                 /\ (ts[i].b \in DOMAIN cf => v.e[2 * i] = Bulk(cf[ts[i].b]))
 
-ModelStep(cs, v) ==
+\* aux = [store, conf] threaded through the replies of one write; the result is the set of aux values the model allows
+\* after reply v to the oldest unanswered request of cs ({} = the reply is not the one Redis defines)
+ModelStep(cs, v, aux) ==
   LET r == cs.reqs[cs.nrep + 1]
-      x == ReqExpect(cs, r, cfg) IN
+      x == ReqExpect(cs, r, cfg)
+      ks == IF cs.db \in DOMAIN aux.store THEN aux.store[cs.db] ELSE RM!EmptyKS IN
   IF ~r.frame /\ r.name = "CONFIG" /\ cs.auth /\ Len(r.args) >= 2 /\ r.args[1].k = "word" /\ ~AnyNull(r.args) THEN
     (IF r.args[1].w = "SET" /\ Len(r.args) % 2 = 1
-       THEN v = OKV /\ conf' = ConfSet(conf, Tail(r.args), 1) /\ UNCHANGED store
-     ELSE IF r.args[1].w = "GET" THEN ConfGetOK(Tail(r.args), v) /\ UNCHANGED <<store, conf>>
-     ELSE UNCHANGED <<store, conf>>)
-  ELSE IF r.frame \/ x.kind \notin {"calls", "derived"} THEN UNCHANGED <<store, conf>>
-  ELSE LET m == RM!Exec(KS(cs.db), r.name, r.args) IN
-    /\ UNCHANGED conf
-    /\ IF m.cmp = "any" THEN PrintT(<<"UNMODELLED", r.name>>) /\ UNCHANGED store
-       ELSE IF RM!IsErrRes(m) THEN v.t = "err" /\ UNCHANGED store
-       ELSE RM!ReplyMatches(m, v) /\ store' = PutF(store, cs.db, m.ks)
+       THEN (IF v = OKV THEN {[aux EXCEPT !.conf = ConfSet(aux.conf, Tail(r.args), 1)]} ELSE {})
+     ELSE IF r.args[1].w = "GET" THEN (IF ConfGetOK(Tail(r.args), v, aux.conf) THEN {aux} ELSE {})
+     ELSE {aux})
+  ELSE IF r.frame \/ x.kind \notin {"calls", "derived"} THEN {aux}
+  ELSE LET m == RM!Exec(ks, r.name, r.args) IN
+       IF m.cmp = "any" THEN (IF PrintT(<<"UNMODELLED", r.name>>) THEN {aux} ELSE {aux})
+       ELSE IF RM!IsErrRes(m) THEN (IF v.t = "err" THEN {aux} ELSE {})
+       ELSE IF RM!ReplyMatches(m, v) THEN {[aux EXCEPT !.store = PutF(aux.store, cs.db, m.ks)]} ELSE {}
+
+\* a write: the replies it completes, in order.  P is a set of [cs, aux] pairs (several only where the trace leaves open
+\* which handler calls belong to which request)
+Judge(c, cs, v, aux) == IF cfg.model /\ (cfg.mconns = {} \/ c \in cfg.mconns) THEN ModelStep(cs, v, aux) ELSE {aux}
+RECURSIVE WriteFrames(_, _, _, _)
+WriteFrames(P, w, i, c) ==
+  IF P = {} THEN {}
+  ELSE IF i > Len(w) THEN {[p EXCEPT !.cs.wbuf = <<>>] : p \in P}
+  ELSE LET r == Dec(w, i) IN
+       IF r.ok THEN WriteFrames(UNION {{[cs |-> n, aux |-> a] : n \in Reply1(p.cs, r.v, cfg), a \in Judge(c, p.cs, r.v, p.aux)} : p \in P},
+                                w, r.next, c)
+       ELSE IF r.why = "trunc" THEN {[p EXCEPT !.cs.wbuf = SubSeq(w, i, Len(w))] : p \in P}
+       ELSE {}                                            \* not RESP
+OnWrite(p, b, failed, c) ==
+  IF p.cs.wild THEN WriteWild(p, b, failed)
+  ELSE IF ~Live(p.cs) \/ p.cs.closed \/ p.cs.quit THEN {}
+  ELSE IF failed THEN WriteFailed(p)
+  ELSE WriteFrames({p}, p.cs.wbuf \o b, 1, c)
 
 \* the reference store's own contents after the requests delivered so far
 EntryOf(k) == CASE k.ty = "string" -> [ty |-> "string", v |-> k.v, x |-> k.x]
@@ -75,18 +95,16 @@ Handle(e) ==
     [] e.ev = "fullclose" -> Upd(e.c, OnEos(conn[e.c], "full"))
     [] e.ev = "wfail"     -> UNCHANGED <<conn, cfg, store, conf>>
     [] e.ev = "store"     -> (cfg.model => StoreDumpOK(e)) /\ UNCHANGED <<conn, cfg, store, conf>>
-    [] e.ev = "block"     -> Upd(e.c, OnBlock(conn[e.c]))
+    [] e.ev = "block"     -> /\ Upd(e.c, OnBlock(conn[e.c]))
+                             /\ (cfg.tracer /\ ~conn[e.c].wild => RootsOK(conn[e.c]))
     [] e.ev = "call"      -> Upd(e.c, OnCall(conn[e.c], e))
     [] e.ev = "callret"   -> Upd(e.c, OnCallRet(conn[e.c], e))
-    [] e.ev = "write"     -> LET cs == conn[e.c]
-                                 n == OnWrite(cs, e.b, e.failed, cfg) IN
-                             /\ (cfg.tracer => SpanReplyOK(cs))
-                             /\ UpdC(e.c, n)
-                             /\ IF cfg.model /\ (cfg.mconns = {} \/ e.c \in cfg.mconns) /\ ~cs.wild /\ ~e.failed /\ n.nrep = cs.nrep + 1
-                                THEN ModelStep(cs, Dec(cs.wbuf \o e.b, 1).v)
-                                ELSE UNCHANGED <<store, conf>>
+    [] e.ev = "write"     -> LET P == OnWrite([cs |-> conn[e.c], aux |-> [store |-> store, conf |-> conf]], e.b, e.failed, e.c) IN
+                             \E p \in P : /\ conn' = [conn EXCEPT ![e.c] = p.cs]
+                                          /\ store' = p.aux.store /\ conf' = p.aux.conf /\ UNCHANGED cfg
     [] e.ev = "close"     -> Upd(e.c, OnClose(conn[e.c]))
-    [] e.ev = "return"    -> Upd(e.c, OnReturn(conn[e.c], e))
+    [] e.ev = "return"    -> /\ Upd(e.c, OnReturn(conn[e.c], e))
+                             /\ (cfg.tracer /\ ~conn[e.c].wild => RootsAtEndOK(conn[e.c]))
     [] e.ev = "span"      -> IF e.op = "start" THEN Upd(e.c, OnSpanStart(conn[e.c], e))
                              ELSE Upd(e.c, OnSpanFinish(conn[e.c], e))
     [] OTHER -> FALSE      \* "stall" and anything unknown: never allowed
